@@ -635,6 +635,49 @@ func ruleParserTables(c *Check, w *World, tb *TB, rule string) {
 			}
 		})
 	}
+	// a parsing helper may return its findings in a small struct of its own whose fields the caller copies into the
+	// configuration (SuiteConfig{Hash: cf.hash, …}): such a field stands for the configuration field it is copied to
+	alias := map[string]string{}
+	for f := range reach {
+		if fnPkgPath(f) != OtpPath {
+			continue
+		}
+		EachInstr(f, func(in ssa.Instruction) {
+			st, ok := in.(*ssa.Store)
+			if !ok {
+				return
+			}
+			fa, ok := st.Addr.(*ssa.FieldAddr)
+			if !ok {
+				return
+			}
+			v := stripConv(st.Val)
+			var srcT types.Type
+			var srcIdx int
+			switch x := v.(type) {
+			case *ssa.Field:
+				srcT, srcIdx = x.X.Type(), x.Field
+			case *ssa.UnOp:
+				if sfa, isFA := x.X.(*ssa.FieldAddr); isFA && x.Op == token.MUL {
+					srcT, srcIdx = sfa.X.Type(), sfa.Field
+				}
+			}
+			if srcT == nil {
+				return
+			}
+			dstT := fa.X.Type()
+			deref := func(t types.Type) types.Type {
+				if p, ok := t.Underlying().(*types.Pointer); ok {
+					return p.Elem()
+				}
+				return t
+			}
+			if types.Identical(deref(srcT), deref(dstT)) {
+				return
+			}
+			alias[fieldName(srcT, srcIdx)] = fieldName(dstT, fa.Field)
+		})
+	}
 	for f := range reach {
 		if fnPkgPath(f) != OtpPath {
 			continue
@@ -648,6 +691,9 @@ func ruleParserTables(c *Check, w *World, tb *TB, rule string) {
 					entries = append(entries, e2)
 				}
 				continue
+			}
+			if to, ok := alias[e.Target]; ok {
+				e.Target = to
 			}
 			entries = append(entries, e)
 		}
@@ -745,7 +791,44 @@ func ruleParserTables(c *Check, w *World, tb *TB, rule string) {
 				vt = vt.Args[0]
 			}
 			nDig++
-			ok := vt.Op == "extract" && vt.Sym == "0" && vt.Args[0].Op == "call" && (vt.Args[0].Sym == "strconv.Atoi" || vt.Args[0].Sym == "strconv.ParseUint" || vt.Args[0].Sym == "strconv.ParseInt")
+			isParsed := func(t *Term) bool {
+				for t.Op == "conv" && len(t.Args) == 1 {
+					t = t.Args[0]
+				}
+				return t.Op == "extract" && t.Sym == "0" && t.Args[0].Op == "call" && (t.Args[0].Sym == "strconv.Atoi" || t.Args[0].Sym == "strconv.ParseUint" || t.Args[0].Sym == "strconv.ParseInt")
+			}
+			ok := isParsed(vt)
+			if !ok && vt.Op == "field" && len(vt.Args) == 1 {
+				// handed over in a field of a parsing helper's result: on every return of the helper that field is the
+				// parsed number (or the zero of an error return)
+				inner := vt.Args[0]
+				if inner.Op == "extract" && inner.Sym == "0" && len(inner.Args) == 1 {
+					inner = inner.Args[0]
+				}
+				if cl, isCall := inner.Val.(*ssa.Call); isCall && inner.Op == "call" {
+					if g := cl.Call.StaticCallee(); g != nil && w.InModule(g) {
+						if rs := tb.Results(g, nil, nil, 0); len(rs) >= 1 {
+							ft := tb.fieldOf(rs[0], vt.Sym, nil)
+							ok, nParsed := true, 0
+							for _, a := range ft.Alts() {
+								switch {
+								case isParsed(a):
+									nParsed++
+								case a.Op == "zero" || (a.IsConst() && a.Sym == "0"):
+								default:
+									ok = false
+								}
+							}
+							ok = ok && nParsed > 0
+							_ = ok
+							if ok {
+								c.OK(rule, FuncName(f), "digits-parsed-verbatim", "Digits is the number parsed from the suite string, handed over unchanged in a field of "+FuncName(g)+"'s result", w.InstrPos(st))
+								continue
+							}
+						}
+					}
+				}
+			}
 			c.Decide(ok, rule, FuncName(f), "digits-parsed-verbatim", "Digits is the number parsed from the suite string, unchanged (Validate then rejects what cannot be represented)", "Digits is set from "+clip(vt.String(), 200)+", not from the parsed number unchanged: a string the configuration cannot represent is mapped to another code length instead of being rejected", w.InstrPos(st))
 		}
 	}
@@ -954,6 +1037,7 @@ func init() {
 			"R15.2: ListSuites, IsKnownSuite, SuiteConfigFromRaws and NewRawSuite read that one table, nobody writes it, and every successful return of NewRawSuite carries the given string as Raw (through the parser's own store of raw). " +
 			"R15.3: the parser's token tables (hash names, 08/10, PSHA*, S/M/H x1/60/3600 without narrowing) and its structure: every successful parser return is dominated by Validate()==nil of the returned configuration; the version part is compared by equality. " +
 			"R15.4: the functions reachable from the suite constructors and lookups keep no package-level mutable state (no memoisation that could make one parse influence the next). " +
+			"R15.5: the enumerators have the documented numeric wire values; R15.6: NewSuite returns the given configuration unchanged. " +
 			"Not decided: the parser's behaviour over the whole string language (split/trim/Atoi are runtime string processing).",
 		assume:   []string{"a time token without unit in a registered name (\"T1\") means seconds: the registry's own spelling, frozen as the single exception"},
 		quick:    []Config{CfgNative},
